@@ -371,7 +371,7 @@ impl<'a> Sim<'a> {
                     out.last_has_next = Some(*has_next);
                     self.ticks += 1;
                     self.ctx.sim_ticks += 1;
-                    self.ctx.bump("f13_tick_response_lost");
+                    self.ctx.bump("f10_tick_response_lost");
                     ev!(self.ctx, "fault: the server ticked ({} trades), the tick response was lost, the client returned Err", trades.len());
                 }
                 Wire::Fetch { quotes, .. } => {
@@ -391,11 +391,11 @@ impl<'a> Sim<'a> {
                     ev!(self.ctx, "fault: {what} failed at the transport (client returned Err)");
                     match *what {
                         "insert_order" => self.ctx.bump("f10_insert_order_request_lost"),
-                        "tick" => self.ctx.bump("f12_tick_request_lost"),
+                        "tick" => self.ctx.bump("f10_tick_request_lost"),
                         _ => {
                             // the quotes are lost, the tick's trades are not: they arrived with the tick
                             // response and must be booked (C04 / C05 "every trade the exchange has executed")
-                            self.ctx.bump("f13_quote_response_lost");
+                            self.ctx.bump("f10_quote_response_lost");
                             if let Some(ts) = pending_tick.take() {
                                 for t in &ts {
                                     self.led.book_trade(t);
@@ -417,7 +417,7 @@ impl<'a> Sim<'a> {
                 TradeType::Sell => -t.quantity,
             };
             *self.lost_pending.entry(t.symbol.clone()).or_insert(0.0) += signed;
-            self.ctx.bump("f13_trades_the_broker_could_not_learn_of");
+            self.ctx.bump("f10_trades_the_broker_could_not_learn_of");
         }
         drop(wire);
         self.wire_seen = self.sh.wire_len();
